@@ -7,6 +7,7 @@ import (
 	"encoding/json"
 	"fmt"
 	"os"
+	"runtime"
 	"sort"
 	"sync"
 	"time"
@@ -153,7 +154,13 @@ func Drive(in string, index int, w *ev.Writer, seed int64, tracePath string) err
 	// ---------------------------------------------------------------- the script
 	tScript := time.Now()
 	sv.run(sc, timeout)
-	wg.Wait()
+	hang := ""
+	if !waitTimeout(&wg, time.Duration(sc.BgCalls+1)*(timeout+time.Duration(slackMs())*time.Millisecond)+5*time.Second) {
+		// a caller is still inside Request long after its deadline: deadlock or lost wake-up
+		buf := make([]byte, 1<<20)
+		hang = string(buf[:runtime.Stack(buf, true)])
+		rec.emit(map[string]any{"k": "Hang"})
+	}
 	scriptMs := time.Since(tScript).Milliseconds()
 
 	// ---------------------------------------------------------------- recovery, later calls
@@ -175,7 +182,7 @@ func Drive(in string, index int, w *ev.Writer, seed int64, tracePath string) err
 		recovered = rec.waitConnUps(sc.NConns, sv, 2*time.Second)
 	}
 	time.Sleep(30 * time.Millisecond)
-	for r := 0; r < sc.Followup && recovered; r++ {
+	for r := 0; r < sc.Followup && recovered && hang == ""; r++ {
 		var fw sync.WaitGroup
 		for j := 0; j < 2*sc.NConns; j++ {
 			next++
@@ -225,6 +232,11 @@ func Drive(in string, index int, w *ev.Writer, seed int64, tracePath string) err
 		}
 	}
 	res["answers"], res["errors"] = nAns, nErr
+	res["hang"] = hang != ""
+	if len(hang) > 6000 {
+		hang = hang[:6000]
+	}
+	res["hang_stacks"] = hang
 	res["payload_mismatch"], res["late"], res["early"], res["followup_failed"] = ints(mism), ints(late), ints(early), ints(fuFail)
 	res["census_ok"] = cen1.Ping == want.Ping && cen1.Cl == want.Cl && cen1.Cr == want.Cr && cen1.Rc == 0 && cen1.Other == 0 && cen1.Pkt == want.Pkt
 	res["pkt_extra"] = cen1.Pkt - want.Pkt
@@ -243,6 +255,17 @@ func Drive(in string, index int, w *ev.Writer, seed int64, tracePath string) err
 	w.Emit(res)
 	w.Emit(ev.M{"k": "End", "events": 1})
 	return nil
+}
+
+func waitTimeout(wg *sync.WaitGroup, d time.Duration) bool {
+	done := make(chan struct{})
+	go func() { wg.Wait(); close(done) }()
+	select {
+	case <-done:
+		return true
+	case <-time.After(d):
+		return false
+	}
 }
 
 func slackMs() int {
